@@ -50,6 +50,28 @@ Proof.
   destruct St as [_ [_ [Sd _]]]. apply query_spec_pf; assumption.
 Qed.
 
+(* the database also holds keys that are no index entries (the raw value keys,
+   "$init" markers): the iterator walks over them, the result is the same as
+   long as none of them starts with "<index name>:" *)
+Lemma query_with_foreign_keys_pf : forall (idxs : list (index V)) s d d' (q : iquery V),
+  names_ok idxs -> index_state idxs s d -> In (qidx q) idxs ->
+  sortedb d' = true ->
+  (forall k, In k d -> In k d') ->
+  (forall k, In k d' -> ~ In k d -> has_prefix (iname (qidx q) ++ [colon]) k = false) ->
+  entries_nul_free (entries_of (qidx q) s) = true ->
+  (qrev q = true -> db_bytes_ok d' = true) ->
+  ((qlimit q < 0)%Z -> (Z.of_nat (length d') < max_int)%Z) ->
+  fetch_collection d' q = FOk (spec_query q (entries_of (qidx q) s)).
+Proof.
+  intros idxs s d d' q Hn St Hin Sd' Sub Foreign NF Hb Hl.
+  destruct (index_slices_pf idxs s d (qidx q) Hn St Hin) as [[Sl1 Sl2] [ND _]].
+  apply query_spec_pf; try assumption. split.
+  - intros k Hk Hp. destruct (in_dec (list_eq_dec N.eq_dec) k d) as [Hd|Hd].
+    + apply Sl1; assumption.
+    + rewrite (Foreign k Hk Hd) in Hp. discriminate.
+  - intros e He. apply Sub. apply Sl2. exact He.
+Qed.
+
 Lemma query_after_history_pf : forall (idxs : list (index V)) ncb ms st d es (q : iquery V),
   names_ok idxs -> muts_ids_nul_free ms = true -> run_history idxs ncb ms = (st, d, es) ->
   In (qidx q) idxs ->
